@@ -234,6 +234,10 @@ def handle (args : List String) : Option String :=
       let impl := runCase (Cfg.impl bk) true toks
       let spec := runCase (Cfg.spec bk) true toks
       some (impl ++ "\t" ++ spec ++ "\t-")
+  | ["fs.dirfs", op, why, res] =>
+    -- DirFS is judged by the harness-side oracles; the class of a failed verdict is decided here
+    let cls := if why = "atomic" ∧ op = "remove" ∧ (res = "ENOTEMPTY" ∨ res = "EEXIST") then "F17f" else "unlisted"
+    some ("-\t-\t" ++ cls)
   | ["p.clean", p] => pathReply (clean (ux p))
   | ["p.dir", p] => pathReply (dir (ux p))
   | ["p.base", p] => pathReply (base (ux p))
